@@ -32,6 +32,8 @@ ASSUMPTIONS = [
     "time inside C-level regex matching is invisible to LINE events; it is bounded by a 20 s alarm per parse (a 10^5-fold margin)",
 ]
 
+KNOWN_VERBATIM = "C12-django-verbatim-followed-by-non-space-whitespace"
+
 ALPHA = ['"', "'", "[", "]", "{", "}", ":", ",", "|", "=", "...", "*", "**", "_(", ")", "\\", " ", "\n", "a", "1", "/", "%}"]
 STRUCT14 = ['"', "'", "[", "]", "{", "}", ":", ",", "|", "=", "...", "*", "_(", " "]
 NONTRIVIAL = set('"\'[]{}*') | {"...", "**", "_(", "%}"}
@@ -146,7 +148,36 @@ class Env:
         self.steps = Steps()
         signal.signal(signal.SIGALRM, _alarm)
 
-    def guarded(self, rec, fn, n, case, what):
+    def inherited_from_django(self, e, src):
+        """Defect model of the listed finding KNOWN_VERBATIM (mechanism-keyed): the exception is the AttributeError that
+        Django's own {% verbatim %} compile function raises when it renders, at parse time and with an unbound
+        Context, a body that the lexer did not tokenize in verbatim mode (Lexer.create_token only recognises
+        'verbatim' followed by a SPACE or nothing), AND unpatched Django (methods saved before django.setup()) fails in
+        the same way on the same source."""
+        import traceback
+
+        from vf import boot
+
+        if src is None or type(e) is not AttributeError or "'NoneType' object has no attribute 'engine'" not in str(e):
+            return None
+        frames = traceback.extract_tb(e.__traceback__)
+        if not any(fr.filename.endswith("django/template/defaulttags.py") and fr.name == "verbatim" for fr in frames):
+            return None
+        T = self.Template
+        saved = (T.compile_nodelist, T.render)
+        T.compile_nodelist, T.render = boot.ORIG["compile_nodelist"], boot.ORIG["render"]
+        try:
+            T(src)
+        except AttributeError as e2:
+            if str(e2) == str(e):
+                return KNOWN_VERBATIM
+        except Exception:  # noqa: BLE001
+            return None
+        finally:
+            T.compile_nodelist, T.render = saved
+        return None
+
+    def guarded(self, rec, fn, n, case, what, src=None):
         """Run fn() under the monitors. Returns ("ok", value) | ("tse",) | ("viol",)"""
         self.steps.start(budget(n))
         signal.alarm(20)
@@ -165,7 +196,7 @@ class Env:
             rec.violation("raised-RecursionError", case, {"what": f"{what}: {str(e)[:100]}"})
             return ("viol",)
         except Exception as e:  # noqa: BLE001
-            rec.violation("raised-" + type(e).__name__, case, {"what": f"{what}: {type(e).__name__}: {str(e)[:200]}"})
+            rec.report("raised-" + type(e).__name__, case, {"what": f"{what}: {type(e).__name__}: {str(e)[:200]}"}, known=self.inherited_from_django(e, src))
             return ("viol",)
         finally:
             signal.alarm(0)
@@ -181,7 +212,7 @@ class Env:
     def compile_in(self, rec, s, ctx_i, case=None):
         src = CONTEXTS[ctx_i].format(s=s)
         case = case or {"kind": "template", "source": src}
-        return self.guarded(rec, lambda: self.Template(src), len(src), case, "Template()")
+        return self.guarded(rec, lambda: self.Template(src), len(src), case, "Template()", src=src)
 
 
 def strip_pos(attrs):
@@ -337,7 +368,7 @@ def shard_tmpl(env, spec, rec):
                     parts.append(rng.choice(["{% endslot %}", "{% endcomponent %}", "{% fill %}", "{{ x }}", "text", "{% endfill %}", "{% component %}", "{% slot %}"]))
             src = "".join(parts)
         rec.case(src, nontrivial=True)
-        r = env.guarded(rec, lambda: env.Template(src), len(src), {"kind": "template", "source": src}, "Template()")
+        r = env.guarded(rec, lambda: env.Template(src), len(src), {"kind": "template", "source": src}, "Template()", src=src)
         rec.count("template_" + r[0])
     rec.exhaustive = False
 
@@ -421,13 +452,23 @@ def shard_scale(env, spec, rec):
     rec.exhaustive = False
 
 
+def run_witnesses(spec, rec):
+    """Stored witness of the listed finding: a source on which Django's own verbatim handling fails."""
+    env = Env()
+    for f in spec["findings"]:
+        src = f["witness"]["source"]
+        rec.case(("witness", f["id"]), nontrivial=False)
+        # reported through the same monitor + defect model as generated inputs: silent once it no longer fails
+        env.guarded(rec, lambda: env.Template(src), len(src), {"kind": "template", "source": src, "witness_of": f["id"]}, "Template()", src=src)
+
+
 def replay(case, rec):
     env = Env()
     rec.case(("replay", 1))
     rec.case(("replay", 2))
     if case["kind"] == "template":
         src = case["source"]
-        env.guarded(rec, lambda: env.Template(src), len(src), case, "Template()")
+        env.guarded(rec, lambda: env.Template(src), len(src), case, "Template()", src=src)
     elif case["kind"] == "roundtrip":
         s = case["text"]
         r = env.parse_direct(rec, s, case)
